@@ -111,7 +111,7 @@ def _interesting_start(rng, ground):
 
 def _gen_aircraft(rng, idx, T, used, fast=False):
     while True:
-        icao = "%06X" % rng.randrange(1, 1 << 24)
+        icao = "%06X" % rng.randrange(1, 1 << rng.choice([24, 24, 24, 20, 16, 8]))   # some with leading zero nibbles
         if icao not in used:
             used.add(icao)
             break
